@@ -75,6 +75,9 @@ class State:
         self.counter = 0
         self.solver = z3.Solver()
         self.solver.set("timeout", FEAS_TIMEOUT_MS)
+        from .vtypes import INF as _INF
+        self.pc.append(_INF > 0)
+        self.solver.add(_INF > 0)
         self.written = set()
         self.ghost = {"SLEPT": Val("Real", z3.RealVal(0))}
         self.suspend_heap = None
@@ -99,7 +102,7 @@ class State:
     def fresh(self, sort, hint="v"):
         return z3.Const(self.fresh_name(hint), sort)
 
-    def fresh_val(self, ty, hint="v", assume_alloc=True):
+    def fresh_val(self, ty, hint="v", assume_alloc=True, finite=True):
         """A fresh symbolic value of static type ty, with its type invariant assumed."""
         base = strip_opt(ty)
         if isinstance(base, tuple) and base[0] == "Tuple":
@@ -122,10 +125,10 @@ class State:
                 v = Val(ty, t, self.fresh(z3.BoolSort(), hint + "_isnone"))
         else:
             v = Val(ty, t)
-        self.assume_type_inv(v, assume_alloc)
+        self.assume_type_inv(v, assume_alloc, finite)
         return v
 
-    def assume_type_inv(self, v, assume_alloc=True):
+    def assume_type_inv(self, v, assume_alloc=True, finite=True):
         base = strip_opt(v.ty)
         if is_ref(base):
             inv = z3.And(self.alloc[v.term], self.cls_is(v.term, base[1])) if assume_alloc else self.cls_is(v.term, base[1])
@@ -137,7 +140,7 @@ class State:
         elif isinstance(base, tuple) and base[0] == "Enum":
             vals = sorted(REG.enums[base[1]].values())
             self.assume(z3.Or(*[v.term == x for x in vals]))
-        elif base == "Real":
+        elif base == "Real" and finite:
             from .vtypes import INF
             self.assume(z3.And(v.term < INF, -INF < v.term))
 
